@@ -21,13 +21,15 @@ RULE = ("plan = frame (0..12 rows quick / 0..40 thorough, 1..4 columns of any ki
         "missing value, a duplicate, ±inf or |x| ≥ 2**53. Distinct = plan hash.")
 CASES = {"quick": 2500, "thorough": 16000}
 
-KINDS = ["f", "i", "b", "s", "s", "u", "d", "t", "td", "o", "oi", "ob", "y", "u8", "i8", "f32"]
+KINDS = ["f", "i", "b", "s", "s", "u", "d", "t", "td", "o", "oi", "ob", "y", "u8", "i8", "f32", "tn"]
 
 
 def _np_value(kind, v):
     """A comparison value of the column's own type for column=value filtering."""
     if kind in build.DT_UNITS:
         return np.datetime64("NaT" if v is None else v, build.DT_UNITS[kind])
+    if kind == "tn":
+        return np.datetime64("NaT" if v is None else v, "ns")
     if kind == "td":
         return np.timedelta64("NaT" if v is None else v, "s")
     if kind == "y":
@@ -89,6 +91,13 @@ def _plan(draw, max_rows):
             v = draw(src)
             if sentinel(v):
                 v = {"s": "a", "u": "a", "o": "a", "oi": 1, "ob": True}[c["kind"]]
+            if c["kind"] in ("i", "i8", "u8") and draw(st.integers(0, 3)) == 0:
+                # a float compared with an integer column (2.5 matches nothing, 7.0 matches 7): the value as it is
+                pairs.append([c["name"], draw(st.sampled_from([2.5, 0.5, -1.5, 0.0, 1.0, 7.0, 127.0])), "raw"])
+                continue
+            if c["kind"] == "f" and draw(st.integers(0, 5)) == 0:
+                pairs.append([c["name"], draw(st.sampled_from([0, 1, -1, 2])), "raw"])
+                continue
             pairs.append([c["name"], v])
         op["pairs"] = pairs
     elif name in ("slice", "slice_off"):
@@ -130,7 +139,15 @@ def _plan(draw, max_rows):
     draw(gen.decorate(fp))
     plan = {"frame": fp, "op": op}
     # how the receiver came to be, a module-level default, and whether the call is made twice
-    plan["receiver"] = draw(st.sampled_from(["built", "built", "shallow_copy", "deep_copy", "view_rows", "derived"]))
+    plan["receiver"] = draw(st.sampled_from(["built", "built", "shallow_copy", "deep_copy", "view_rows", "derived", "sorted"]))
+    if plan["receiver"] == "sorted":
+        # the receiver is the direct result of a sort by one or two columns (whatever the sort leaves on its result)
+        k = len(fp["cols"])
+        if k == 0:
+            plan["receiver"] = "built"
+        else:
+            idx = draw(st.lists(st.integers(0, k - 1), min_size=1, max_size=min(2, k), unique=True))
+            plan["presort"] = [[fp["cols"][j]["name"], draw(st.sampled_from([1, 1, -1]))] for j in idx]
     if draw(st.integers(0, 3)) == 0:
         plan["peek_rows"] = draw(st.sampled_from([1, 2, 5, 10, 50]))
     plan["twice"] = draw(st.integers(0, 2)) == 0
@@ -158,9 +175,14 @@ def _expected(plan):
         return [i for i in range(n) if not op["mask"][i]]
     if name in ("filter_kv", "filter_out_kv"):
         def match(i):
-            for cn, v in op["pairs"]:
-                want = build.pcell(kinds[cn], v)
+            for cn, v, *raw in op["pairs"]:
                 have = cc[cn][i]
+                if raw:
+                    # a number of another type: plain numeric equality (all raw values are small and exact)
+                    if have is None or float(have) != float(v):
+                        return False
+                    continue
+                want = build.pcell(kinds[cn], v)
                 if want is None or have is None:
                     return False
                 if model.ident(want) != model.ident(have):
@@ -229,6 +251,20 @@ def check(plan, ctx):
         data = data._view_rows(np.arange(n)) if hasattr(data, "_view_rows") else data     # what aggregate lambdas receive
     elif how == "derived":
         data = data.slice(rows=np.arange(n)).rename().unselect()      # the product of other operations
+    elif how == "sorted" and n:
+        try:
+            srt = data.sort(**{cn: d for cn, d in plan["presort"]})
+            order = [int(x) for x in np.asarray(srt["_rid_"])]
+            fp2 = dict(fp, cols=[dict(c, vals=[c["vals"][r] for r in order]) for c in fp["cols"]])
+            fp2.pop("via", None); fp2.pop("layout", None)
+            srt["_rid_"] = np.arange(n)                        # fresh row ids; the key columns are not touched
+            if sorted(order) == list(range(n)) and build.snap_frame(srt) == build.snap_frame(build.frame(fp2)):
+                data, fp = srt, fp2
+                plan = dict(plan, frame=fp2)
+            else:
+                how = "built"                                  # sort itself is off: C03's business
+        except Exception:
+            how = "built"
     if "peek_rows" in plan:
         di.DEFAULT_PEEK_ROWS = plan["peek_rows"]
     ctx.cls("receiver_" + how)
@@ -246,7 +282,9 @@ def check(plan, ctx):
                "callable": lambda: (lambda x: np.array(m, dtype=bool))}[op["form"]]()
         out = ctx.call(name, getattr(data, name), arg)
     elif name in ("filter_kv", "filter_out_kv"):
-        kw = {cn: _np_value(kinds[cn], v) for cn, v in op["pairs"]}
+        kw = {cn: (v if raw else _np_value(kinds[cn], v)) for cn, v, *raw in op["pairs"]}
+        if any(len(p_) > 2 for p_ in op["pairs"]):
+            ctx.cls("filter_value_of_another_numeric_type")
         meth = "filter" if name == "filter_kv" else "filter_out"
         out = ctx.call(meth + "(**pairs)", getattr(data, meth), **kw)
     elif name in ("slice", "slice_off"):
